@@ -1,6 +1,7 @@
 package props
 
 import (
+	"regexp"
 	"fmt"
 	"go/token"
 	"go/types"
@@ -71,6 +72,18 @@ func c10RoleFromTags(tags map[string]bool, dp int, inLoop bool) string {
 		return "index" // single-output lookup: the index is only compared with the wanted one
 	}
 	return "?" + an.TagList(tags)
+}
+
+// c10IsOutsIndex: v (conversions aside) is used in fn as the index into a record's output list.
+func c10IsOutsIndex(fn *ssa.Function, v ssa.Value) bool {
+	v = c17StripConv(v)
+	found := false
+	an.Instrs(fn, func(i ssa.Instruction) {
+		if ia, ok := i.(*ssa.IndexAddr); ok && c17StripConv(ia.Index) == v && strings.HasSuffix(an.Expr(ia.X), ".Outs") {
+			found = true
+		}
+	})
+	return found
 }
 
 func c10RoleFromAtoms(a map[string]bool) string {
@@ -184,7 +197,11 @@ func c10WriterEvents(p *core.Program, fn *ssa.Function, callee string) []c10Even
 			case n == callee:
 				arg := x.Call.Args[len(x.Call.Args)-1]
 				a := an.Atoms(arg)
-				ev := c10Event{kind: "vule", loop: loops[b], pos: p.Pos(an.InstrPos(ins)), role: c10RoleFromAtoms(a), via: a, branch: c10Branch(b, special)}
+				role := c10RoleFromAtoms(a)
+				if c10IsOutsIndex(fn, arg) {
+					role = "index" // the value that indexes the output list in this loop, whatever the loop's form
+				}
+				ev := c10Event{kind: "vule", loop: loops[b], pos: p.Pos(an.InstrPos(ins)), role: role, via: a, branch: c10Branch(b, special)}
 				evs = append(evs, ev)
 			case n == "builtin.copy" && callee == "lib/btc.PutULe":
 				a := an.Atoms(x.Call.Args[1])
@@ -205,6 +222,23 @@ func c10Tokens(evs []c10Event) []string {
 		}
 		seen[t] = true
 		out = append(out, t)
+	}
+	// the two alternatives of the script field ([special] / [raw]) are branches of one if: their order in
+	// the block list follows the order of the branches in the source, which means nothing - special first
+	isAlt := func(t string) bool { return strings.HasSuffix(t, "[special]") || strings.HasSuffix(t, "[raw]") }
+	for i := 0; i < len(out); {
+		if !isAlt(out[i]) {
+			i++
+			continue
+		}
+		j := i
+		for j < len(out) && isAlt(out[j]) {
+			j++
+		}
+		sort.SliceStable(out[i:j], func(a, b int) bool {
+			return strings.HasSuffix(out[i+a], "[special]") && !strings.HasSuffix(out[i+b], "[special]")
+		})
+		i = j
 	}
 	return out
 }
@@ -570,7 +604,17 @@ func c10Special(r *core.Run, p *core.Program) {
 		an.Instrs(fn, func(i ssa.Instruction) {
 			if bo, ok := i.(*ssa.BinOp); ok {
 				if k, ok := an.ConstOf(bo.Y); ok {
-					m[fmt.Sprintf("%s%d", bo.Op, k.Int64())]++
+					// a comparison and its negation (with exchanged branches) are the same test
+					switch bo.Op {
+					case token.LSS, token.GEQ:
+						m[fmt.Sprintf("<%d", k.Int64())]++
+					case token.LEQ, token.GTR:
+						m[fmt.Sprintf("<%d", k.Int64()+1)]++
+					case token.EQL, token.NEQ:
+						m[fmt.Sprintf("==%d", k.Int64())]++
+					default:
+						m[fmt.Sprintf("%s%d", bo.Op, k.Int64())]++
+					}
 				}
 			}
 		})
@@ -1042,20 +1086,12 @@ func c10TwoPass(r *core.Run, p *core.Program, name string) {
 		r.Fail(rule, "two-pass/"+name, "-", "function not found")
 		return
 	}
+	reRange := regexp.MustCompile(`\(phi:rangeindex@b\d+ \+ 1\)`)
+	rePhi := regexp.MustCompile(`phi:\w+@b\d+`)
 	norm := func(e string) string {
-		// the two passes are separate loops over the same list: their index variables differ by name only
-		for {
-			i := strings.Index(e, "phi:rangeindex@b")
-			if i < 0 {
-				break
-			}
-			j := i + len("phi:rangeindex@b")
-			for j < len(e) && e[j] >= '0' && e[j] <= '9' {
-				j++
-			}
-			e = e[:i] + "phi:i" + e[j:]
-		}
-		return e
+		// the two passes are separate loops over the same list: their index variables differ by name and,
+		// between a range loop and a counting loop, by form
+		return rePhi.ReplaceAllString(reRange.ReplaceAllString(e, "IDX"), "IDX")
 	}
 	var leaves func(v ssa.Value, seen map[ssa.Value]bool, out *[]ssa.Value)
 	leaves = func(v ssa.Value, seen map[ssa.Value]bool, out *[]ssa.Value) {
